@@ -175,6 +175,9 @@ impl<const L: usize> BookDyn for OrderBook<L> {
     fn reload_file(&self, pretty: bool) -> Result<Box<dyn BookDyn>, String> {
         let p = scratch_file("snap");
         let r = (|| {
+            // the path already holds another (for the compact form: longer) snapshot of this book: saving
+            // replaces the file, it does not write into it
+            self.save_json(&p, !pretty).map_err(|e| e.to_string())?;
             self.save_json(&p, pretty).map_err(|e| e.to_string())?;
             let b = OrderBook::<L>::load_json(&p).map_err(|e| e.to_string())?;
             Ok(Box::new(b) as Box<dyn BookDyn>)
